@@ -545,12 +545,14 @@ theorem refOK_of_copySlot_none (a : Arr) (op : Op) (h : copySlot a op = none) (h
       · simp [refOK]; omega
   | _ => rfl
 
-/-- **fixed_step_disciplined.** With the repair of commit 06f34988 (`stepFixed`: `push_back(const T&)`,
+/-- **hist_fix1_step_disciplined** (historical: the code between the two fix commits).  With the repair
+of commit 06f34988 alone (`stepFixed`: `push_back(const T&)`,
 `insert(p,v)`, `insert(p,n,v)`, `resize(n,v)` take a private copy of an element argument before
 reallocating/shifting) these four operations need no aliasing hypothesis any more.  The three
 operations the commit did NOT guard — `push_back(T&&)`, `emplace_back`, `emplace` — still need it
-(`unguardedOK`; see `emplace_alias_still_breaks_current_code`). -/
-theorem fixed_step_disciplined (mx : Nat) (a : Arr) (L : Log) (vs : List Elt) (op : Op) (h : Rep a vs)
+(`unguardedOK`; see `emplace_alias_broke_fix1_code`); commit f70ab3a8 closed that gap, see
+`fixed2_step_disciplined` for the code as it is now. -/
+theorem hist_fix1_step_disciplined (mx : Nat) (a : Arr) (L : Log) (vs : List Elt) (op : Op) (h : Rep a vs)
     (hl : legal mx a op = true) (hu : unguardedOK a op = true) :
     (stepFixed mx a L op).log.viol = L.viol ∧
     ((stepFixed mx a L op).thrown = false → Rep (stepFixed mx a L op).arr (spec vs op)) ∧
@@ -625,39 +627,6 @@ theorem fixed_step_disciplined (mx : Nat) (a : Arr) (L : Log) (vs : List Elt) (o
         exact key (.resizeFill n (.ext vs[i]!)) rfl (by simpa [legal] using hj.1) rfl
           (by simp [spec, Ref.value, List.getD_eq_getElem?_getD, hj.2]) hj.2
     | _ => simp [copySlot] at hcs
-
-/-- legality along a run of the repaired algorithm (no condition on the value arguments) -/
-def okRunFixed (mx : Nat) (a : Arr) (L : Log) : List Op → Prop
-  | [] => True
-  | op :: ops => legal mx a op = true ∧ unguardedOK a op = true ∧
-      okRunFixed mx (stepFixed mx a L op).arr (stepFixed mx a L op).log ops
-
-/-- **run_fixed_disciplined.** The code after 06f34988 over arbitrary *legal* operation sequences —
-element arguments allowed for every `const T&` operation (only the three unguarded rvalue/emplace
-operations keep the condition): no violation, well-formedness, live objects = size. -/
-theorem run_fixed_disciplined (mx : Nat) : ∀ (ops : List Op) (a : Arr) (L : Log), WF a → okRunFixed mx a L ops →
-    (runFixed mx a L ops).2.viol = L.viol ∧ WF (runFixed mx a L ops).1 ∧
-    (runFixed mx a L ops).2.ctor + a.size + L.dtor = (runFixed mx a L ops).2.dtor + (runFixed mx a L ops).1.size + L.ctor := by
-  intro ops
-  induction ops with
-  | nil => intro a L hwf _; exact ⟨rfl, hwf, by simp [runFixed]; omega⟩
-  | cons op ops ih =>
-    intro a L hwf hok
-    obtain ⟨hl, hu, hrest⟩ := hok
-    obtain ⟨vs, hv⟩ := hwf
-    obtain ⟨s1, s2, s3, s4⟩ := fixed_step_disciplined mx a L vs op hv hl hu
-    have hwf' : WF (stepFixed mx a L op).arr := by
-      cases ht : (stepFixed mx a L op).thrown with
-      | false => exact ⟨_, s2 ht⟩
-      | true => rw [s3 ht]; exact ⟨vs, hv⟩
-    obtain ⟨i1, i2, i3⟩ := ih (stepFixed mx a L op).arr (stepFixed mx a L op).log hwf' hrest
-    show (runFixed mx (stepFixed mx a L op).arr (stepFixed mx a L op).log ops).2.viol = _ ∧
-      WF (runFixed mx (stepFixed mx a L op).arr (stepFixed mx a L op).log ops).1 ∧ _
-    refine ⟨by rw [i1, s1], i2, ?_⟩
-    show (runFixed mx (stepFixed mx a L op).arr (stepFixed mx a L op).log ops).2.ctor + a.size + L.dtor
-      = (runFixed mx (stepFixed mx a L op).arr (stepFixed mx a L op).log ops).2.dtor
-        + (runFixed mx (stepFixed mx a L op).arr (stepFixed mx a L op).log ops).1.size + L.ctor
-    omega
 
 /-- the repaired algorithm handles the witnesses of F3 like `std::vector` -/
 example : abs (stepFixed 1000 full4 {} (.pushBack (.slot 0))).arr = [10, 20, 30, 40, 10] ∧
@@ -802,13 +771,14 @@ namespace C26
 /-! ## round 2: rvalue / emplace arguments that are elements of the array
 
 `push_back(T&&)`, `emplace_back(args…)`, `emplace(p, args…)` were not touched by 06f34988: they still
-grow / shift first and read their argument afterwards. -/
+grew / shifted first and read their argument afterwards; f70ab3a8 repaired them (`stepFixed2`). -/
 
-/-- **the defect is still in the current code** (`stepFixed` = /repo after 06f34988):
+/-- **historical witness** (`stepFixed` = /repo after 06f34988, before f70ab3a8) — shown by this check
+on that tree with keys `Array_.{emplaceBack,pushBackMove,emplace}.alias_realloc`, `Array_.emplace.alias_shift`:
 `a.emplace_back(a[0])` and `a.push_back(std::move(a[1]))` at full capacity read a freed element;
 `a.emplace(a.begin()+1, a[2])` at full capacity likewise; with spare capacity
 `a.emplace(a.begin(), a[2])` inserts the wrong element (20 instead of 30) without any violation. -/
-theorem emplace_alias_still_breaks_current_code :
+theorem emplace_alias_broke_fix1_code :
     (stepFixed 1000 full4 {} (.emplaceBack (.slot 0))).log.viol = 1 ∧
     (stepFixed 1000 full4 {} (.pushBackMove (.slot 1))).log.viol = 1 ∧
     (stepFixed 1000 full4 {} (.emplace 1 (.slot 2))).log.viol = 1 ∧
@@ -829,7 +799,8 @@ def Fixed2OK (mx : Nat) (a : Arr) (L : Log) (vs : List Elt) (op : Op) : Prop :=
     (stepFixed2 mx a L op).log.ctor + a.size + L.dtor
       = (stepFixed2 mx a L op).log.dtor + (stepFixed2 mx a L op).arr.size + L.ctor
 
-/-- **fixed2_step_disciplined.**  With the second proposed repair (`stepFixed2`) *every* legal
+/-- **fixed2_step_disciplined** — the statement about the CURRENT code (`stepFixed2` = /repo after
+06f34988 + f70ab3a8, the step function the driver executes): *every* legal
 operation — whatever element of the array is passed by `const T&`, `T&&` or as emplace argument —
 is disciplined and refines `std::vector`; no aliasing hypothesis at all. -/
 theorem fixed2_step_disciplined (mx : Nat) (a : Arr) (L : Log) (vs : List Elt) (op : Op) (h : Rep a vs)
@@ -844,7 +815,7 @@ theorem fixed2_step_disciplined (mx : Nat) (a : Arr) (L : Log) (vs : List Elt) (
   -- operations that `stepFixed2` hands to `stepFixed`
   have viaFixed : stepFixed2 mx a L op = stepFixed mx a L op → unguardedOK a op = true → Fixed2OK mx a L vs op := fun e hu => by
     unfold Fixed2OK
-    rw [e]; exact fixed_step_disciplined mx a L vs op h hl hu
+    rw [e]; exact hist_fix1_step_disciplined mx a L vs op h hl hu
   -- a temporary copy of element `i`, then the operation with that external value
   have viaCopy : ∀ (i : Nat) (op' : Op), i < vs.length →
       stepFixed2 mx a L op =
@@ -968,35 +939,62 @@ end C26
 
 namespace C26
 
-/-! ## round 2: the executed (post-06f34988) step over sequences and several arrays -/
+/-! ## the executed step (`stepFixed2`, current code) over sequences and several arrays -/
+
+/-- legality along a run of the current code (no condition at all on value arguments) -/
+def okRunCurrent (mx : Nat) (a : Arr) (L : Log) : List Op → Prop
+  | [] => True
+  | op :: ops => legal mx a op = true ∧ okRunCurrent mx (stepFixed2 mx a L op).arr (stepFixed2 mx a L op).log ops
+
+/-- **run_current_disciplined.** The current code over arbitrary *legal* operation sequences — any
+element of the array may be passed by `const T&`, `T&&` or as emplace argument: no violation,
+well-formedness, live objects = size. -/
+theorem run_current_disciplined (mx : Nat) : ∀ (ops : List Op) (a : Arr) (L : Log), WF a → okRunCurrent mx a L ops →
+    (runCurrent mx a L ops).2.viol = L.viol ∧ WF (runCurrent mx a L ops).1 ∧
+    (runCurrent mx a L ops).2.ctor + a.size + L.dtor = (runCurrent mx a L ops).2.dtor + (runCurrent mx a L ops).1.size + L.ctor := by
+  intro ops
+  induction ops with
+  | nil => intro a L hwf _; exact ⟨rfl, hwf, by simp [runCurrent]; omega⟩
+  | cons op ops ih =>
+    intro a L hwf hok
+    obtain ⟨hl, hrest⟩ := hok
+    obtain ⟨vs, hv⟩ := hwf
+    obtain ⟨s1, s2, s3, s4⟩ := fixed2_step_disciplined mx a L vs op hv hl
+    have hwf' : WF (stepFixed2 mx a L op).arr := by
+      cases ht : (stepFixed2 mx a L op).thrown with
+      | false => exact ⟨_, s2 ht⟩
+      | true => rw [s3 ht]; exact ⟨vs, hv⟩
+    obtain ⟨i1, i2, i3⟩ := ih (stepFixed2 mx a L op).arr (stepFixed2 mx a L op).log hwf' hrest
+    show (runCurrent mx (stepFixed2 mx a L op).arr (stepFixed2 mx a L op).log ops).2.viol = _ ∧
+      WF (runCurrent mx (stepFixed2 mx a L op).arr (stepFixed2 mx a L op).log ops).1 ∧ _
+    refine ⟨by rw [i1, s1], i2, ?_⟩
+    show (runCurrent mx (stepFixed2 mx a L op).arr (stepFixed2 mx a L op).log ops).2.ctor + a.size + L.dtor
+      = (runCurrent mx (stepFixed2 mx a L op).arr (stepFixed2 mx a L op).log ops).2.dtor
+        + (runCurrent mx (stepFixed2 mx a L op).arr (stepFixed2 mx a L op).log ops).1.size + L.ctor
+    omega
 
 /-- contents along a run of the current code (a throwing operation leaves the list unchanged) -/
-def specRunFixed (mx : Nat) (a : Arr) (L : Log) (vs : List Elt) : List Op → List Elt
+def specRunCurrent (mx : Nat) (a : Arr) (L : Log) (vs : List Elt) : List Op → List Elt
   | [] => vs
   | op :: ops =>
-    specRunFixed mx (stepFixed mx a L op).arr (stepFixed mx a L op).log
-      (if (stepFixed mx a L op).thrown then vs else spec vs op) ops
+    specRunCurrent mx (stepFixed2 mx a L op).arr (stepFixed2 mx a L op).log
+      (if (stepFixed2 mx a L op).thrown then vs else spec vs op) ops
 
-/-- **run_fixed_refines.** the sequences the driver executes (`stepFixed`) refine the fold of the
-`std::vector` operations -/
-theorem run_fixed_refines (mx : Nat) : ∀ (ops : List Op) (a : Arr) (L : Log) (vs : List Elt), Rep a vs →
-    okRunFixed mx a L ops → abs (runFixed mx a L ops).1 = specRunFixed mx a L vs ops := by
+/-- **run_current_refines.** the sequences the driver executes refine the fold of the `std::vector` operations -/
+theorem run_current_refines (mx : Nat) : ∀ (ops : List Op) (a : Arr) (L : Log) (vs : List Elt), Rep a vs →
+    okRunCurrent mx a L ops → abs (runCurrent mx a L ops).1 = specRunCurrent mx a L vs ops := by
   intro ops
   induction ops with
   | nil => intro a L vs h _; exact abs_of_rep h
   | cons op ops ih =>
     intro a L vs h hok
-    obtain ⟨hl, hu, hrest⟩ := hok
-    obtain ⟨_, s2, s3, _⟩ := fixed_step_disciplined mx a L vs op h hl hu
-    show abs (runFixed mx (stepFixed mx a L op).arr (stepFixed mx a L op).log ops).1
-      = specRunFixed mx (stepFixed mx a L op).arr (stepFixed mx a L op).log _ ops
-    cases ht : (stepFixed mx a L op).thrown with
+    obtain ⟨hl, hrest⟩ := hok
+    obtain ⟨_, s2, s3, _⟩ := fixed2_step_disciplined mx a L vs op h hl
+    show abs (runCurrent mx (stepFixed2 mx a L op).arr (stepFixed2 mx a L op).log ops).1
+      = specRunCurrent mx (stepFixed2 mx a L op).arr (stepFixed2 mx a L op).log _ ops
+    cases ht : (stepFixed2 mx a L op).thrown with
     | false => exact ih _ _ _ (s2 ht) hrest
     | true => exact ih _ _ _ (by rw [s3 ht]; exact h) hrest
-
-def wunguardedOK (w : World) : WOp → Bool
-  | .on k op => unguardedOK (w.get k) op
-  | _ => true
 
 /-- outcome of one world operation, for an arbitrary result world `w'` -/
 structure WOutcome (w w' : World) (vss : List (List Elt)) (op : WOp) : Prop where
@@ -1004,10 +1002,11 @@ structure WOutcome (w w' : World) (vss : List (List Elt)) (op : WOp) : Prop wher
   rep : ∃ vss', WRep w' vss' ∧ (w'.thrown = false → vss' = wspec vss op) ∧ (w'.thrown = true → vss' = vss)
   bal : w'.log.ctor + total w + w.log.dtor = w'.log.dtor + total w' + w.log.ctor
 
-/-- **wstepFixed_ok.** the world step the driver executes (`wstepFixed`) is disciplined and refines `wspec` -/
-theorem wstepFixed_ok (mx : Nat) (w : World) (vss : List (List Elt)) (op : WOp) (h : WRep w vss)
-    (hl : wlegal mx w op = true) (hu : wunguardedOK w op = true) : WOutcome w (wstepFixed mx w op) vss op := by
-  have other : wstepFixed mx w op = wstep mx w op → wrefOK w op = true → WOutcome w (wstepFixed mx w op) vss op := by
+/-- **wstep_current_ok.** the world step the driver executes (`wstepCurrent`) is disciplined and refines `wspec`;
+only legality is required -/
+theorem wstep_current_ok (mx : Nat) (w : World) (vss : List (List Elt)) (op : WOp) (h : WRep w vss)
+    (hl : wlegal mx w op = true) : WOutcome w (wstepCurrent mx w op) vss op := by
+  have other : wstepCurrent mx w op = wstep mx w op → wrefOK w op = true → WOutcome w (wstepCurrent mx w op) vss op := by
     intro e hr
     rw [e]
     obtain ⟨a, b, c⟩ := wstep_ok mx w vss op h hl hr
@@ -1016,22 +1015,21 @@ theorem wstepFixed_ok (mx : Nat) (w : World) (vss : List (List Elt)) (op : WOp) 
   | on k op =>
     obtain ⟨arrs, L, t⟩ := w
     have hk : k < arrs.length ∧ legal mx (arrs.getD k {}) op = true := by simpa [wlegal, World.get] using hl
-    have hu' : unguardedOK (arrs.getD k {}) op = true := hu
     have hrep : Rep (arrs.getD k {}) (vss.getD k []) := h.2 k
-    obtain ⟨s1, s2, s3, s4⟩ := fixed_step_disciplined mx (arrs.getD k {}) L (vss.getD k []) op hrep hk.2 hu'
-    have hsum := sum_set arrs k (stepFixed mx (arrs.getD k {}) L op).arr hk.1
+    obtain ⟨s1, s2, s3, s4⟩ := fixed2_step_disciplined mx (arrs.getD k {}) L (vss.getD k []) op hrep hk.2
+    have hsum := sum_set arrs k (stepFixed2 mx (arrs.getD k {}) L op).arr hk.1
     refine ⟨s1, ?_, ?_⟩
-    · cases ht : (stepFixed mx (arrs.getD k {}) L op).thrown with
+    · cases ht : (stepFixed2 mx (arrs.getD k {}) L op).thrown with
       | false =>
         exact ⟨vss.set k (spec (vss.getD k []) op), wrep_set k _ _ h (s2 ht), fun _ => rfl,
-          fun ht' => (by have : (stepFixed mx (arrs.getD k {}) L op).thrown = true := ht'; rw [ht] at this; cases this)⟩
+          fun ht' => (by have : (stepFixed2 mx (arrs.getD k {}) L op).thrown = true := ht'; rw [ht] at this; cases this)⟩
       | true =>
-        refine ⟨vss, ?_, fun ht' => (by have : (stepFixed mx (arrs.getD k {}) L op).thrown = false := ht'; rw [ht] at this; cases this), fun _ => rfl⟩
-        have := wrep_set (L' := (stepFixed mx (arrs.getD k {}) L op).log) (t' := (stepFixed mx (arrs.getD k {}) L op).thrown)
-          k (stepFixed mx (arrs.getD k {}) L op).arr (vss.getD k []) h (by rw [s3 ht]; exact hrep)
+        refine ⟨vss, ?_, fun ht' => (by have : (stepFixed2 mx (arrs.getD k {}) L op).thrown = false := ht'; rw [ht] at this; cases this), fun _ => rfl⟩
+        have := wrep_set (L' := (stepFixed2 mx (arrs.getD k {}) L op).log) (t' := (stepFixed2 mx (arrs.getD k {}) L op).thrown)
+          k (stepFixed2 mx (arrs.getD k {}) L op).arr (vss.getD k []) h (by rw [s3 ht]; exact hrep)
         rw [set_getD_self] at this; exact this
-    · show (stepFixed mx (arrs.getD k {}) L op).log.ctor + (arrs.map Arr.size).sum + L.dtor
-        = (stepFixed mx (arrs.getD k {}) L op).log.dtor + ((arrs.set k (stepFixed mx (arrs.getD k {}) L op).arr).map Arr.size).sum + L.ctor
+    · show (stepFixed2 mx (arrs.getD k {}) L op).log.ctor + (arrs.map Arr.size).sum + L.dtor
+        = (stepFixed2 mx (arrs.getD k {}) L op).log.dtor + ((arrs.set k (stepFixed2 mx (arrs.getD k {}) L op).arr).map Arr.size).sum + L.ctor
       omega
   | swap i j => exact other rfl rfl
   | copyAssign i j => exact other rfl rfl
@@ -1040,40 +1038,40 @@ theorem wstepFixed_ok (mx : Nat) (w : World) (vss : List (List Elt)) (op : WOp) 
   | moveCtor i j => exact other rfl rfl
   | viewCopy i off j off2 len => exact other rfl rfl
 
-def wrunFixed (mx : Nat) (w : World) : List WOp → World
+def wrunCurrent (mx : Nat) (w : World) : List WOp → World
   | [] => w
-  | op :: ops => wrunFixed mx (wstepFixed mx w op) ops
+  | op :: ops => wrunCurrent mx (wstepCurrent mx w op) ops
 
-def okWRunFixed (mx : Nat) (w : World) : List WOp → Prop
+def okWRunCurrent (mx : Nat) (w : World) : List WOp → Prop
   | [] => True
-  | op :: ops => wlegal mx w op = true ∧ wunguardedOK w op = true ∧ okWRunFixed mx (wstepFixed mx w op) ops
+  | op :: ops => wlegal mx w op = true ∧ okWRunCurrent mx (wstepCurrent mx w op) ops
 
-/-- **world_fixed_disciplined.** what the random streams of the driver execute: arbitrary legal
+/-- **world_current_disciplined.** what the random streams of the driver execute: arbitrary legal
 sequences over several arrays with the current code — no violation, all arrays well formed, live
 elements = sum of sizes. -/
-theorem world_fixed_disciplined (mx : Nat) : ∀ (ops : List WOp) (w : World) (vss : List (List Elt)),
-    WRep w vss → okWRunFixed mx w ops →
-    (wrunFixed mx w ops).log.viol = w.log.viol ∧ (∃ vss', WRep (wrunFixed mx w ops) vss') ∧
-    (wrunFixed mx w ops).log.ctor + total w + w.log.dtor
-      = (wrunFixed mx w ops).log.dtor + total (wrunFixed mx w ops) + w.log.ctor := by
+theorem world_current_disciplined (mx : Nat) : ∀ (ops : List WOp) (w : World) (vss : List (List Elt)),
+    WRep w vss → okWRunCurrent mx w ops →
+    (wrunCurrent mx w ops).log.viol = w.log.viol ∧ (∃ vss', WRep (wrunCurrent mx w ops) vss') ∧
+    (wrunCurrent mx w ops).log.ctor + total w + w.log.dtor
+      = (wrunCurrent mx w ops).log.dtor + total (wrunCurrent mx w ops) + w.log.ctor := by
   intro ops
   induction ops with
-  | nil => intro w vss h _; exact ⟨rfl, ⟨vss, h⟩, by simp [wrunFixed]; omega⟩
+  | nil => intro w vss h _; exact ⟨rfl, ⟨vss, h⟩, by simp [wrunCurrent]; omega⟩
   | cons op ops ih =>
     intro w vss h hok
-    obtain ⟨hl, hu, hrest⟩ := hok
-    obtain ⟨s1, ⟨vss', s2, _, _⟩, s3⟩ := wstepFixed_ok mx w vss op h hl hu
-    obtain ⟨i1, i2, i3⟩ := ih (wstepFixed mx w op) vss' s2 hrest
-    refine ⟨by show (wrunFixed mx (wstepFixed mx w op) ops).log.viol = _; rw [i1, s1], i2, ?_⟩
-    show (wrunFixed mx (wstepFixed mx w op) ops).log.ctor + total w + w.log.dtor
-      = (wrunFixed mx (wstepFixed mx w op) ops).log.dtor + total (wrunFixed mx (wstepFixed mx w op) ops) + w.log.ctor
+    obtain ⟨hl, hrest⟩ := hok
+    obtain ⟨s1, ⟨vss', s2, _, _⟩, s3⟩ := wstep_current_ok mx w vss op h hl
+    obtain ⟨i1, i2, i3⟩ := ih (wstepCurrent mx w op) vss' s2 hrest
+    refine ⟨by show (wrunCurrent mx (wstepCurrent mx w op) ops).log.viol = _; rw [i1, s1], i2, ?_⟩
+    show (wrunCurrent mx (wstepCurrent mx w op) ops).log.ctor + total w + w.log.dtor
+      = (wrunCurrent mx (wstepCurrent mx w op) ops).log.dtor + total (wrunCurrent mx (wstepCurrent mx w op) ops) + w.log.ctor
     omega
 
-/-- each executed world operation is the corresponding operation on a family of `std::vector`s -/
-theorem world_fixed_refines (mx : Nat) (w : World) (vss : List (List Elt)) (op : WOp) (h : WRep w vss)
-    (hl : wlegal mx w op = true) (hu : wunguardedOK w op = true) (hnt : (wstepFixed mx w op).thrown = false) (k : Nat) :
-    abs ((wstepFixed mx w op).get k) = (wspec vss op).getD k [] := by
-  obtain ⟨vss', h1, h2, _⟩ := (wstepFixed_ok mx w vss op h hl hu).rep
+/-- **world_current_refines.** each executed world operation is the corresponding operation on a family of `std::vector`s -/
+theorem world_current_refines (mx : Nat) (w : World) (vss : List (List Elt)) (op : WOp) (h : WRep w vss)
+    (hl : wlegal mx w op = true) (hnt : (wstepCurrent mx w op).thrown = false) (k : Nat) :
+    abs ((wstepCurrent mx w op).get k) = (wspec vss op).getD k [] := by
+  obtain ⟨vss', h1, h2, _⟩ := (wstep_current_ok mx w vss op h hl).rep
   rw [← h2 hnt]; exact abs_of_rep (h1.2 k)
 
 end C26
